@@ -202,10 +202,10 @@ example :
   · simp [Ass]
   · have hR : Ass * Ainv = 1 := by
       ext i j; fin_cases i; fin_cases j; simp [Ass, Ainv, Matrix.mul_apply]
-    letI := Matrix.invertibleOfRightInverse Ass Ainv hR
+    let _ : Invertible Ass := invertibleOfRightInverse Ass Ainv hR
     have hinv : ⅟Ass = Ainv := invOf_eq_right_inv hR
     rw [det_fromBlocks₂₂, hinv]
-    simp [App, Aps, Asp, Ass, Ainv, Matrix.det_fin_one, Matrix.mul_apply]; norm_num
+    simp [App, Aps, Asp, Ass, Ainv]; norm_num
   · ext i; fin_cases i
     simp [App, Aps, Asp, Ainv, Matrix.mulVec, dotProduct]; norm_num
   · ext i; fin_cases i
@@ -298,6 +298,38 @@ theorem expand_places (n : Nat) (pcols scols : List Nat) (xp xs : List Rat)
     simp only [expand, List.getElem?_map, List.getElem?_range hjn, Option.map_some, h0,
       Rat.zero_add]
     exact scatterAt_get scols xs i j hsn hs hj
+
+/-- End to end: for every layout, every equation request and every duplicate-free variable request, the
+    model's row lists and column lists ARE bijections `er`, `ec` (position `i` of a block ↦ the listed
+    row / dof), and for every full system `A x = b` of that shape, every right inverse `Ainv` of the
+    secondary block and every solution `x_p` of the reduced system, the expanded vector solves
+    `A x = b`. -/
+theorem model_split_solves {K : Type*} [CommRing K] (req : EqReq) (eqs : List EqLayout)
+    (vars : List Var) (items : List VarItem)
+    (hnd : ((parseVars (varBlocks 0 0 vars) items).map (·.idx)).Nodup) :
+    ∃ (er : Fin (primRows req 0 0 eqs).length ⊕ Fin (secRows req eqs).length ≃ Fin (totalRows eqs))
+      (ec : Fin (primCols (parseVars (varBlocks 0 0 vars) items)).length
+            ⊕ Fin (secCols (varBlocks 0 0 vars) (parseVars (varBlocks 0 0 vars) items)).length
+          ≃ Fin (totalDofs vars)),
+      (∀ i, (er (Sum.inl i) : Nat) = (primRows req 0 0 eqs)[i]) ∧
+      (∀ i, (er (Sum.inr i) : Nat) = (secRows req eqs)[i]) ∧
+      (∀ i, (ec (Sum.inl i) : Nat) = (primCols (parseVars (varBlocks 0 0 vars) items))[i]) ∧
+      (∀ i, (ec (Sum.inr i) : Nat)
+        = (secCols (varBlocks 0 0 vars) (parseVars (varBlocks 0 0 vars) items))[i]) ∧
+      ∀ (A : Matrix (Fin (totalRows eqs)) (Fin (totalDofs vars)) K) (b : Fin (totalRows eqs) → K)
+        (Ainv : Matrix _ _ K) (xp : _ → K),
+        A.submatrix (er ∘ Sum.inr) (ec ∘ Sum.inr) * Ainv = 1 →
+        (A.submatrix (er ∘ Sum.inl) (ec ∘ Sum.inl)
+            - A.submatrix (er ∘ Sum.inl) (ec ∘ Sum.inr) * Ainv
+              * A.submatrix (er ∘ Sum.inr) (ec ∘ Sum.inl)) *ᵥ xp
+          = b ∘ er ∘ Sum.inl
+            - (A.submatrix (er ∘ Sum.inl) (ec ∘ Sum.inr) * Ainv) *ᵥ (b ∘ er ∘ Sum.inr) →
+        A *ᵥ (Sum.elim xp (Ainv *ᵥ (b ∘ er ∘ Sum.inr
+            - A.submatrix (er ∘ Sum.inr) (ec ∘ Sum.inl) *ᵥ xp)) ∘ ec.symm) = b := by
+  obtain ⟨er, h1, h2⟩ := split_gives_equiv _ _ _ (row_split_is_partition req eqs)
+  obtain ⟨ec, h3, h4⟩ := split_gives_equiv _ _ _ (col_split_is_partition vars items hnd)
+  exact ⟨er, ec, h1, h2, h3, h4, fun A b Ainv xp hR hS =>
+    schur_expand_solves_full A b er ec Ainv xp hR hS⟩
 
 /-! ### non-vacuity of part (b)
 
